@@ -3,6 +3,7 @@ package c16
 import (
 	"encoding/json"
 	"fmt"
+	"github.com/GuanceCloud/platypus/pkg/ast"
 	"github.com/GuanceCloud/platypus/pkg/errchain"
 	"os"
 	"path/filepath"
@@ -463,6 +464,99 @@ func TestScenarios(t *testing.T) {
 			evid.Sample(map[string]any{"script_sets": sc.Sets, "goroutines": kinds, "gomaxprocs": sc.Procs, "repetitions": sc.Reps})
 		}
 	})
+}
+
+// TestManyRunsInsideOneCallee: the harness owns the schedule: n runs - of one caller, of two callers of the same
+// used script, directly of that script - are held inside the used script by a host function until all n have entered
+// it; then they go on. Every one of them must end like the same run alone (n = 1).
+func TestManyRunsInsideOneCallee(t *testing.T) {
+	var need, arrived int64
+	var gate chan struct{}
+	var gmu sync.Mutex
+	call, check := map[string]plrt.FuncCall{}, map[string]plrt.FuncCheck{}
+	for k, v := range v1call {
+		call[k] = v
+	}
+	for k, v := range v1check {
+		check[k] = v
+	}
+	call["pgate"] = func(ctx *plrt.Task, e *ast.CallExpr) *errchain.PlError {
+		gmu.Lock()
+		g := gate
+		arrived++
+		if arrived == need {
+			close(g)
+		}
+		gmu.Unlock()
+		select {
+		case <-g:
+		case <-time.After(90 * time.Second):
+		}
+		return nil
+	}
+	check["pgate"] = func(ctx *plrt.Task, e *ast.CallExpr) *errchain.PlError { return nil }
+	set := map[string]string{
+		"a.p":   "probe(\"a-start\", k)\nva = 1\nuse(\"lib.p\")\nprobe(\"a-after\", va, seen)\nadd_key(done_a, true)",
+		"b.p":   "l = [k, \"b\"]\nuse(\"lib.p\")\nuse(\"lib.p\")\nprobe(\"b-after\", l)\nset_tag(done_b, \"yes\")",
+		"lib.p": "probe(\"lib\", k, seen)\npgate()\nadd_key(seen, k)\nuse(\"leaf.p\")",
+		"leaf.p": "add_key(leaf, k + 1)",
+	}
+	ok, errs, crash := impl.LoadV1(set, call, check)
+	if crash != nil || len(errs) > 0 {
+		rk.Fail(t, "many-inside", set, "harness: the script set does not load: %v %v", errs, crash)
+	}
+	roots := []string{"a.p", "b.p", "lib.p"}
+	passes := map[string]int64{"a.p": 1, "b.p": 2, "lib.p": 1} // gate passages of one run
+	runOne := func(root string, k int64) string {
+		return doRun(ok[root], &job{Kind: "run", Fields: map[string]string{"k": probe.Render(k)}, Tags: map[string]string{"host": "h"}})
+	}
+	arm := func(n int64) {
+		gmu.Lock()
+		need, arrived, gate = n, 0, make(chan struct{})
+		gmu.Unlock()
+	}
+	total := 0
+	for _, n := range []int{2, 8, 31, 32, 33, 34, 40, 64, 100, 300} {
+		for mix := 0; mix < 3; mix++ { // all a.p / a.p and b.p / all three roots
+			jobsRoot := make([]string, n)
+			for i := range jobsRoot {
+				jobsRoot[i] = roots[i%(mix+1)]
+			}
+			// b.p passes the gate twice: the first passage of every run is the one all wait in
+			arm(int64(n))
+			got := make([]string, n)
+			var wg sync.WaitGroup
+			for i := 0; i < n; i++ {
+				wg.Add(1)
+				go func(i int) {
+					defer wg.Done()
+					got[i] = runOne(jobsRoot[i], int64(i))
+				}(i)
+			}
+			fin := make(chan struct{})
+			go func() { wg.Wait(); close(fin) }()
+			select {
+			case <-fin:
+			case <-time.After(200 * time.Second):
+				rk.Fail(t, "many-inside", map[string]any{"scripts": set, "runs": n, "roots": jobsRoot}, "%d runs held inside lib.p had not all finished after 200 s", n)
+			}
+			for i := 0; i < n; i++ {
+				arm(1)
+				_ = passes
+				want := runOne(jobsRoot[i], int64(i))
+				if got[i] != want {
+					rk.Fail(t, "many-inside", map[string]any{"scripts": set, "runs": n, "roots": jobsRoot, "run": i}, "with %d runs inside lib.p at the same moment, run %d (%s) ends differently from the same run alone\nalone:\n%s\namong %d:\n%s", n, i, jobsRoot[i], clip(want), n, clip(got[i]))
+				}
+			}
+			evid.Case(fmt.Sprintf("many-inside/%d/%d", n, mix), true, "many-runs-inside-one-callee")
+			evid.LabelN("goroutine-executions", n)
+			total++
+		}
+	}
+	if msg := hostStateIntact(); msg != "" {
+		rk.Fail(t, "many-inside", set, "%s", msg)
+	}
+	evid.Exhaustive("number of runs held inside the used script at once x mix of callers", total)
 }
 
 func TestReplays(t *testing.T) {
